@@ -257,18 +257,27 @@ Definition table_ok (H P : graph) (t : table) : bool :=
                     is_perm l (monos_on H P (filter (fun x => LGraph.mem x hn) (node_ids H))
                                             (filter (fun x => LGraph.mem x pn) (node_ids P)))) t.
 
+(** ---------- monitor of the input premise of the theorems ([gwf], lib/C06_Spec.v):
+    distinct node ids; every edge joins two different nodes of the graph ---------- *)
+Fixpoint nodupb (l : list N) : bool :=
+  match l with [] => true | x :: r => negb (LGraph.mem x r) && nodupb r end.
+Definition gwfb (g : graph) : bool :=
+  nodupb (node_ids g) &&
+  forallb (fun e => let '(a, b, _) := e in
+                    LGraph.mem a (node_ids g) && LGraph.mem b (node_ids g) && negb (N.eqb a b)) (gedges g).
+
 (** ---------- observables ---------- *)
 Definition tmapping (m : mapping) : tok := tset (tpair tN tN) m.
 Definition tcomps (cs : list (list N)) : tok := tset (tset tN) cs.
 
 (** order-insensitive run: oracle := the verified enumerator; results as multisets *)
 Definition run_set (H P : graph) (cfgs : list cfg) : tok :=
-  L [ tcomps (comps H); tcomps (comps P);
+  L [ tbool (gwfb H && gwfb P); tcomps (comps H); tcomps (comps P);
       tlist (fun c => L [ tbool (quick_pre_filter H P (c_thr c));
                           tset tmapping (find (monos_on H P) c H P) ]) cfgs ].
 
 (** order-sensitive run: oracle := recorded networkx enumerations *)
 Definition run_list (H P : graph) (t : table) (cfgs : list cfg) : tok :=
-  L [ tbool (table_ok H P t); tcomps (comps H); tcomps (comps P);
+  L [ tbool (gwfb H && gwfb P); tbool (table_ok H P t); tcomps (comps H); tcomps (comps P);
       tlist (fun c => L [ tbool (quick_pre_filter H P (c_thr c));
                           tlist tmapping (find (lookup t) c H P) ]) cfgs ].
